@@ -502,6 +502,61 @@ func c10Fill(x *mc.Exec) {
 	c10Run(x, segs, names, c[0], c[1], []int{0, 33}[x.All("source-chunk", 2)])
 }
 
+// c10Repeat scans one well-formed stream many times in one process without resetting anything in between:
+// whatever the scanner keeps from one scan to the next (a recycled reader, a counter) must not show, not
+// even when a narrow counter wraps.
+func c10Repeat(x *mc.Exec) {
+	minII := gen.EncodeTIFF(gen.MinimalRecord(), gen.CanonicalLayout(), binary.LittleEndian, gen.AllDirs)
+	streams := [][]gen.Seg{
+		{gen.SegExif(minII)},
+		{gen.SegXMP(c10Packet(100))},
+		{gen.SegJFIF(), gen.SegExif(minII), gen.SegNestedImage(0xEC), gen.SegXMP(c10Packet(100))},
+		{gen.SegCOM(), gen.SegXMP(c10Packet(4097)), gen.SegAPPn(14, 5000), gen.SegExif(minII)},
+	}
+	si := x.All("stream", len(streams))
+	plain := x.All("source", 2) == 1
+	n := []int{70000, 70000, 700, 700}[si]
+	doc, _ := gen.BuildJPEG(streams[si], true)
+	pristine()
+	scan := func() string {
+		var sb strings.Builder
+		var src io.Reader = bytes.NewReader(doc.B)
+		if plain {
+			src = struct{ io.Reader }{src}
+		}
+		err := jpeg.ScanJPEG(src, func(r io.Reader, h meta.ExifHeader) error {
+			b, e := io.ReadAll(r)
+			fmt.Fprintf(&sb, "exif %+v %x %v;", h, hashBytes(b), e)
+			return nil
+		}, func(r io.Reader) error {
+			b, e := io.ReadAll(r)
+			fmt.Fprintf(&sb, "xmp %d %x %v;", len(b), hashBytes(b), e)
+			return nil
+		})
+		return sb.String() + "err=" + errStr(err)
+	}
+	var first string
+	if pi := mc.Guard(func() { first = scan() }); pi != nil {
+		failPanic(x, pi, "jpeg.ScanJPEG", doc.B, nil)
+		return
+	}
+	for i := 2; i <= n; i++ {
+		var got string
+		if pi := mc.Guard(func() { got = scan() }); pi != nil {
+			failPanic(x, pi, "jpeg.ScanJPEG", doc.B, map[string]string{"scan": fmt.Sprint(i)})
+			return
+		}
+		if got != first {
+			x.Fail("framing|jpeg.ScanJPEG|repeated-scan-differs", fmt.Sprintf("scan number %d of the same stream in one process gives %s ; the first scan gave %s", i, truncStr(got, 300), truncStr(first, 300)),
+				map[string]string{"input_hex": hexInput(doc.B), "scan": fmt.Sprint(i)})
+			break
+		}
+	}
+	x.Bulk = int64(n) - 1
+	x.InputID = hashBytes(doc.B) ^ uint64(b2i(plain))
+	x.Outcome = truncStr(first, 40)
+}
+
 func init() {
 	register(&mc.Check{Property: "C10", Setup: defaultLogger,
 		Spaces: func(tier string) []mc.Space {
@@ -520,7 +575,9 @@ func init() {
 				Rule: fmt.Sprintf("[APP14 filler of length L][target][Exif][XMP] for %d filler lengths in 0..8300 (quick: every L that puts the target's marker within 80 bytes before or 8 after a multiple of 4096, and every 97th; thorough: all) x 8 targets (XMP, empty XMP, Exif, near-Exif, near-XMP, XMP extension, APP1 0xFF run, COM) x 4 callback pairs x 4 source deliveries (bytes.Reader; plain reader with chunks of 4096, 1000, 33): every look-ahead of the scanner is exercised at every distance from the end of its buffer", len(fillers))}
 			fill := mc.Space{Name: "fill-bytes", H: c10Fill, NoLevels: true, Isolate: true, SplitDepth: 1,
 				Rule: "sequences of 1..3 segments over {Exif, XMP, JFIF, COM, 5000-byte APP14, DRI} with 0, 1, 2, 3, 63 or 70 fill bytes (0xFF) and 0..191 stray non-0xFF bytes (13 lengths around the multiples of the scanner's 64-byte look-ahead) before one of them x 3 callback pairs x 2 source deliveries: fill bytes before a marker are part of the marker syntax (ITU T.81 B.1.1.2) and change nothing"}
-			return []mc.Space{edge, fill, {Name: "marker-sequences", H: c10Harness(n), NoLevels: true, Isolate: true, SplitDepth: 2,
+			rep := mc.Space{Name: "repeated-scans", H: c10Repeat, NoLevels: true, Isolate: true, SplitDepth: 1,
+				Rule: "4 well-formed streams (Exif alone, XMP alone, JFIF + Exif + nested SOI/EOI + XMP, COM + long XMP + APP14 + Exif) scanned 70000 resp. 700 times in one process with nothing reset in between, from a bytes.Reader and from a plain reader: every scan makes the calls of the first one (which the other spaces compare with the segment table)"}
+			return []mc.Space{edge, fill, rep, {Name: "marker-sequences", H: c10Harness(n), NoLevels: true, Isolate: true, SplitDepth: 2,
 				Rule: fmt.Sprintf("every sequence of <= %d segments over a 22-symbol alphabet (JFIF, JFXX, Exif min/rich both byte orders, Exif whose offsets point behind the block, the Exif prefix followed by 0-7 bytes or by bytes that are no TIFF header, XMP with 7 packet lengths incl. 0, 4096+-1, 65502, XMP extension, ICC, Photoshop, 0xFF runs, nested SOI/EOI, near-Exif, near-XMP, COM, DRI with 7 restart intervals incl. marker-looking ones, SOF2, COM/APP0/APP12/APP1 segments of 0-3 bytes of 0xFF, 5000-byte APPn, ignored segments (APP2, COM, non-Exif APP1, APP13) of length 0xFFFF, 0xFFFE, 0xFFFD, 0x8000, 0x7FFF, 0x100, 0xFF filled with marker-looking structure) followed by DQT SOF0 DHT SOS entropy EOI x 6 Exif-callback behaviours x 7 XMP-callback behaviours; trivial = no metadata segment", n)}}
 		},
 		Assumptions: []string{"expected callback arguments and payloads come from the generator's own segment table", "Exif callbacks consume exactly their declared length (the statement's premise); under-consuming Exif callbacks are not explored"},
